@@ -17,6 +17,7 @@ import (
 	"github.com/form3tech-oss/f1/v2/internal/verifharness/hlib"
 	"github.com/form3tech-oss/f1/v2/internal/verifshim/vrt"
 	"github.com/form3tech-oss/f1/v2/internal/verifshim/vtime"
+	"github.com/form3tech-oss/f1/v2/pkg/f1"
 	f1testing "github.com/form3tech-oss/f1/v2/pkg/f1/testing"
 )
 
@@ -98,6 +99,17 @@ func runSeq(r *hlib.Rec, seq []int, mode string, conc int) {
 				behaviours[seq[id-1]].do(t)
 			}
 		}
+	}
+	if mode == "users" && len(seq) <= 2 {
+		// short sequences also as a combined scenario (f1.CombineScenarios of this one function and a passing one)
+		plain := rs.ScenarioFn
+		pass := func(*f1testing.T) f1testing.RunFn { return func(*f1testing.T) {} }
+		if len(seq) == 2 {
+			rs.ScenarioFn = f1.CombineScenarios(plain, pass)
+		} else {
+			rs.ScenarioFn = f1.CombineScenarios(pass, plain)
+		}
+		input += " as-a-combined-scenario"
 	}
 	res := hlib.RunOnce(rs, -1, 0, 60*time.Second)
 	if res.BuildErr != nil {
